@@ -239,6 +239,41 @@ def mutate(rng, s):
     return s
 
 
+def g_literal(rng, depth=0):
+    """text of a Python literal (what a cooperative LLM answers at a value-generation call), incl. the literals that are not
+    plain data (`...`, bytes, complex) and near-literals"""
+    r = rng.random()
+    if depth < 2 and r < 0.25:
+        items = [g_literal(rng, depth + 1) for _ in range(rng.choice([0, 1, 2, 3]))]
+        k = rng.choice(["list", "tuple", "set", "dict"])
+        if k == "list":
+            return "[" + ", ".join(items) + "]"
+        if k == "tuple":
+            return "(" + ", ".join(items) + ("," if len(items) == 1 else "") + ")"
+        if k == "set":
+            return "{" + ", ".join(items) + "}" if items else "set()"
+        return "{" + ", ".join(g_literal(rng, 2) + ": " + x for x in items) + "}"
+    if r < 0.55:
+        q = rng.choice(["\"", "'", "\"\"\""])
+        body = rng.choice(WORDS + TEMPLATES + ["", "a b", "it is", "\\n", "\\x41", "ZQX $secret QXZ"])
+        return q + body + q
+    if r < 0.8:
+        return rng.choice(["0", "42", "-7", "1.5", "1e3", "True", "False", "None", "0x1f", "1_000", "-0.0", "inf", "nan"])
+    return rng.choice(["...", "b'x'", "b\"\"", "1j", "2+3j", "Ellipsis", "[...]", "(1, ...)", "{1: ...}", "{...}", "1 + 1", "-x", "[1, 2", "{'a'}", "\"a\" \"b\"", "'a' + 'b'"])
+
+
+def g_value_text(rng):
+    t = g_literal(rng)
+    r = rng.random()
+    if r < 0.15:
+        t = t + ";"
+    elif r < 0.25:
+        t = "  " + t + "\n" + g_line(rng)
+    elif r < 0.32:
+        t = rng.choice(["$v = ", "v = ", "Answer: "]) + t
+    return t
+
+
 def g_text(rng):
     r = rng.random()
     if r < 0.55:
@@ -363,7 +398,11 @@ def gen_cases(rng, tier):
     tasks = ["user_intent", "next_step", "bot_message", "general", "value", "single_call", "v2_user_intent", "v2_value",
              "ms_next_step", "ms_start_flow", "v2_from_instructions", "v2_from_name", "v2_continuation", "v2_intent_and_action", "v2_flow_nld"]
     for i in range(n_act):
-        cases.append({"kind": "act", "task": tasks[i % len(tasks)], "prompts": rng.choice(["instruct", "chat", "verbose"]), "s": rng.choice(HOSTILE) if rng.random() < 0.15 else g_text(rng)})
+        task = tasks[i % len(tasks)]
+        text = rng.choice(HOSTILE) if rng.random() < 0.15 else g_text(rng)
+        if task in ("value", "v2_value") and rng.random() < 0.6:
+            text = g_value_text(rng)  # (after the draws above: the stream of the other tasks is unchanged)
+        cases.append({"kind": "act", "task": task, "prompts": rng.choice(["instruct", "chat", "verbose"]), "s": text})
     for _ in range(n_bot):
         cases.append(g_botmsg(rng))
     cases.extend(gen_e2e(rng, n_e2e))
